@@ -860,8 +860,8 @@ impl Check for C01 {
 	}
 	fn runs(&self, tier: Tier) -> u64 {
 		match tier {
-			Tier::Quick => 3_000,
-			Tier::Thorough => 60_000,
+			Tier::Quick => 40_000,
+			Tier::Thorough => 400_000,
 		}
 	}
 	fn generate(&self, root: &Rng, i: u64, tier: Tier) -> Case {
